@@ -176,6 +176,7 @@ func CrashMain(args []string) int {
 	out := fs.String("out", "", "trace ndjson")
 	allcuts := fs.Bool("allcuts", false, "cut the in-flight write at every byte (default: class representatives)")
 	seed := fs.Int64("seed", 1, "seed for body bytes")
+	audit := fs.Bool("audit", false, "run every history under marker lines on stderr (for the system-call audit of syncs), no images")
 	fs.Parse(args)
 	w, err := tr.NewWriter(*out)
 	if err != nil {
@@ -203,6 +204,22 @@ func CrashMain(args []string) int {
 		st, err := fileFactory(dir, id).Create(id)
 		if err != nil {
 			return err
+		}
+		if *audit {
+			// every operation between two marker lines; the check runs this under strace and looks at
+			// the writes and syncs in between
+			ops := append(append([]interface{}{}, tr.List(c, "hist")...), c["op"])
+			for i, o := range ops {
+				om := o.(map[string]interface{})
+				os.Stderr.WriteString(fmt.Sprintf("VMARK B %v %d %s\n", c["id"], i, tr.Str(om, "k")))
+				err := applyOp(st, om, bodies)
+				os.Stderr.WriteString(fmt.Sprintf("VMARK E %v %d\n", c["id"], i))
+				if err != nil {
+					return fmt.Errorf("audited op failed: %w", err)
+				}
+			}
+			st.Close()
+			return nil
 		}
 		for _, o := range tr.List(c, "hist") {
 			if err := applyOp(st, o.(map[string]interface{}), bodies); err != nil {
@@ -348,10 +365,10 @@ func CrashMain(args []string) int {
 // ---------------------------------------------------------------- SQL statement failures
 
 type failPlan struct {
-	mu      sync.Mutex
-	armed   bool
-	failAt  string // "insert" | "update" | "commit"
-	inTx    bool
+	mu       sync.Mutex
+	armed    bool
+	failAt   string // "insert" | "update" | "commit"
+	inTx     bool
 	execInTx int
 }
 
